@@ -36,4 +36,9 @@ DotClass(sp, yk) == MulClass(sp, yk)
 AxpyClass(sp, a2) == MulClass(sp, a2)
 \* (x + y)^2
 SqClass(sp) == IF sp = "nan" THEN "nan" ELSE "pinf"
+\* ---- the finiteness tests, by class of the one unusual element (everything else normal, finite, non-zero) ----
+\* "sub" is a subnormal number: finite and not zero
+TestClasses == {"sub", "negsub", "zero", "negzero", "nan", "pinf", "ninf"}
+AllFinite(cl) == cl \in {"sub", "negsub", "zero", "negzero"}
+AllFiniteNonzero(cl) == cl \in {"sub", "negsub"}
 ==============================================================================
